@@ -41,6 +41,30 @@ func (r *Responder) Respond(w http.ResponseWriter, req *http.Request, code int, 
 	return err
 }
 
+// isLocalRedirect reports whether a client supplied redirect target stays on
+// this site however leniently a browser resolves it. Browsers drop control
+// characters and surrounding whitespace, treat a backslash like a slash and
+// resolve "//host" (and anything with a scheme) to another origin, so looking
+// for "://" is not enough.
+func isLocalRedirect(redir string) bool {
+	if strings.TrimSpace(redir) != redir {
+		return false
+	}
+	for i := 0; i < len(redir); i++ {
+		if c := redir[i]; c < 0x20 || c == 0x7f || c == '\\' {
+			return false
+		}
+	}
+	if strings.HasPrefix(redir, "//") {
+		return false
+	}
+	// A colon before the first slash, question mark or hash is a scheme.
+	if i := strings.IndexAny(redir, ":/?#"); i >= 0 && redir[i] == ':' {
+		return false
+	}
+	return true
+}
+
 func isAPIRequest(r *http.Request) bool {
 	return strings.HasPrefix(r.Header.Get("Content-Type"), "application/json")
 }
@@ -77,7 +101,7 @@ func (r *Redirector) Redirect(w http.ResponseWriter, req *http.Request, ro authb
 func (r Redirector) redirectAPI(w http.ResponseWriter, req *http.Request, ro authboss.RedirectOptions) error {
 	path := ro.RedirectPath
 	redir := req.FormValue(r.FormValueName)
-	if strings.Contains(redir, "://") {
+	if !isLocalRedirect(redir) {
 		// Guard against Open Redirect: https://cwe.mitre.org/data/definitions/601.html
 		redir = ""
 	}
@@ -127,7 +151,7 @@ func (r Redirector) redirectAPI(w http.ResponseWriter, req *http.Request, ro aut
 func (r Redirector) redirectNonAPI(w http.ResponseWriter, req *http.Request, ro authboss.RedirectOptions) error {
 	path := ro.RedirectPath
 	redir := req.FormValue(r.FormValueName)
-	if strings.Contains(redir, "://") {
+	if !isLocalRedirect(redir) {
 		// Guard against Open Redirect: https://cwe.mitre.org/data/definitions/601.html
 		redir = ""
 	}
